@@ -52,6 +52,81 @@ Definition run_on (M : machine cls) (w c n : Z) (rest : list Z) : list Z :=
   | _, _, _ => emalformed
   end.
 
+(* ---- the code model of Model/PTypeMeta.v on encoded records ------------------------------------
+     rational   n d (d > 0)          option X  0 | 1 X          pixel scale  option (rational rational)
+     wavefront  wcode ps focal(option rational, none = inf) wl shape(option (r c)) nfields counts...
+     plane      pcode ps shape nseg ntilt kind   kind = 0 Plane | 1 f Pupil (f: 0 attribute None |
+                1 inf | 2 n d) | 2 Image | 3 TiltInterface
+     5 :: wavefront plane ov-bits (field-major)  -> 0 tag wavefront (tag 1: focal attribute None) | 1 err
+     6 :: wavefront du(2 rationals) os shape keep-bits -> 0 wavefront | 1 err       (propagate_dft)
+     7 :: wavefront du os shape                  -> 0 wavefront | 1 err              (propagate_fft) *)
+Definition P (A : Type) := list Z -> option (A * list Z).
+Definition pz : P Z := fun l => match l with x :: r => Some (x, r) | [] => None end.
+Definition pb {A B} (p : P A) (f : A -> P B) : P B :=
+  fun l => match p l with Some (a, r) => f a r | None => None end.
+Definition pr {A} (a : A) : P A := fun l => Some (a, l).
+Definition pf {A} : P A := fun _ => None.
+Definition pq : P Q := pb pz (fun n => pb pz (fun d => if d <=? 0 then pf else pr (n # Z.to_pos d))).
+Definition popt {A} (p : P A) : P (option A) :=
+  pb pz (fun t => if t =? 0 then pr None else pb p (fun x => pr (Some x))).
+Definition ppair {A B} (p : P A) (q : P B) : P (A * B) := pb p (fun a => pb q (fun b => pr (a, b))).
+Fixpoint prep {A} (n : nat) (p : P A) : P (list A) :=
+  match n with O => pr [] | S k => pb p (fun x => pb (prep k p) (fun r => pr (x :: r))) end.
+Definition plist {A} (p : P A) : P (list A) :=
+  pb pz (fun n => if n <? 0 then pf else prep (Z.to_nat n) p).
+Definition pwty : P wtype := pb pz (fun z => match wtype_of_code z with Some w => pr w | None => pf end).
+Definition ppty : P ptype := pb pz (fun z => match ptype_of_code z with Some w => pr w | None => pf end).
+Definition pwmeta : P wmeta :=
+  pb pwty (fun t => pb (popt (ppair pq pq)) (fun ps => pb (popt pq) (fun fo => pb pq (fun wl =>
+  pb (popt (ppair pz pz)) (fun sh => pb (plist pz) (fun fs => pr (WM t ps fo wl sh fs))))))).
+Definition pkindp : P pkind :=
+  pb pz (fun k => match k with
+    | 0 => pr KindPlane
+    | 1 => pb pz (fun f => match f with
+                           | 0 => pr (KindPupil None) | 1 => pr (KindPupil (Some None))
+                           | 2 => pb pq (fun q => pr (KindPupil (Some (Some q)))) | _ => pf end)
+    | 2 => pr KindImage | 3 => pr KindTilt | _ => pf end).
+Definition ppmeta : P pmeta :=
+  pb ppty (fun t => pb (popt (ppair pq pq)) (fun ps => pb (popt (ppair pz pz)) (fun sh =>
+  pb pz (fun ns => pb pz (fun nt => pb pkindp (fun k =>
+  if ns <? 0 then pf else pr (PM t ps sh (Z.to_nat ns) nt k))))))).
+Definition pall {A} (p : P A) (l : list Z) : option A :=
+  match p l with Some (a, []) => Some a | _ => None end.
+
+Definition eq_ (q : Q) : list Z := let r := Qred q in [Qnum r; Zpos (Qden r)].
+Definition eopt {A} (e : A -> list Z) (o : option A) : list Z :=
+  match o with None => [0] | Some a => 1 :: e a end.
+Definition ewmeta (w : wmeta) : list Z :=
+  wcode (w_ty w) :: eopt (fun p => eq_ (fst p) ++ eq_ (snd p)) (w_ps w) ++ eopt eq_ (w_focal w)
+  ++ eq_ (w_wl w) ++ eopt (fun p => [fst p; snd p]) (w_shape w)
+  ++ Z.of_nat (length (w_fields w)) :: w_fields w.
+Definition eres (r : result wmeta) : list Z :=
+  match r with Ok w => 0 :: ewmeta w | Err e => [1; errcode e] end.
+Definition bit (bits : list Z) (k : nat) : bool := negb (nth k bits 0 =? 0).
+
+Definition run_meta (op : Z) (rest : list Z) : list Z :=
+  match op with
+  | 5 => match pall (pb pwmeta (fun w => pb ppmeta (fun pl =>
+                     pb (prep (length (w_fields w) * p_nseg pl) pz) (fun bits => pr (w, pl, bits))))) rest with
+         | Some (w, pl, bits) =>
+             match multiply pl (fun i n => bit bits (i * p_nseg pl + n)) w with
+             | MOk r => 0 :: 0 :: ewmeta r
+             | MOkNoFocal r => 0 :: 1 :: ewmeta r
+             | MErr e => [1; errcode e]
+             end
+         | None => emalformed end
+  | 6 => match pall (pb pwmeta (fun w => pb (ppair pq pq) (fun du => pb pz (fun os =>
+                     pb (popt (ppair pz pz)) (fun sh => pb (prep (length (w_fields w)) pz) (fun bits =>
+                     pr (w, du, os, sh, bits))))))) rest with
+         | Some (w, du, os, sh, bits) => eres (propagate_dft du os sh (bit bits) w)
+         | None => emalformed end
+  | 7 => match pall (pb pwmeta (fun w => pb (ppair pq pq) (fun du => pb pz (fun os =>
+                     pb (popt (ppair pz pz)) (fun sh => pr (w, du, os, sh)))))) rest with
+         | Some (w, du, os, sh) => eres (propagate_fft du os sh w)
+         | None => emalformed end
+  | _ => emalformed
+  end.
+
 Definition run_c08 (inp : list Z) : list Z :=
   match inp with
   | 1 :: w :: t :: n :: rest => run_on observed w t n rest
@@ -62,6 +137,9 @@ Definition run_c08 (inp : list Z) : list Z :=
       | None => emalformed
       end
   | 4 :: a :: b :: [] => [0; a * b + (- a)]
+  | 5 :: rest => run_meta 5 rest
+  | 6 :: rest => run_meta 6 rest
+  | 7 :: rest => run_meta 7 rest
   | _ => emalformed
   end.
 
